@@ -91,7 +91,65 @@ def execute_run(prop, run, timeout):
     return res
 
 
+ISOLATE = os.environ.get('VERIF_NO_ISOLATE') is None
+
+
 def _task(args):
+    """One simulated run, executed in a forked child of the pool worker.
+
+    The worker itself never executes SUT code, so every run starts from the
+    same pristine module state (imports + warm-up only): module-level state
+    inside aurel (or numpy/h5py) cannot leak from one run into the next, which
+    keeps a run a pure function of its seed whatever ran before it.
+    """
+    if not ISOLATE:
+        return _task_inner(args)
+    import select
+    prop = load_prop(args[0])
+    rfd, wfd = os.pipe()
+    child = os.fork()
+    if child == 0:
+        code = 0
+        try:
+            os.close(rfd)
+            data = json.dumps(_task_inner(args), default=_jd).encode()
+            view = memoryview(data)
+            while view:
+                n = os.write(wfd, view[:1 << 16])
+                view = view[n:]
+        except BaseException:
+            code = 1
+        finally:
+            os._exit(code)
+    os.close(wfd)
+    chunks = []
+    deadline = time.time() + prop.RUN_TIMEOUT * 1.5 + 30
+    while True:
+        left = deadline - time.time()
+        if left <= 0:
+            break
+        ready, _, _ = select.select([rfd], [], [], min(left, 5.0))
+        if ready:
+            b = os.read(rfd, 1 << 20)
+            if not b:
+                break
+            chunks.append(b)
+    os.close(rfd)
+    try:
+        if time.time() >= deadline:
+            os.kill(child, signal.SIGKILL)
+        os.waitpid(child, 0)
+    except OSError:
+        pass
+    try:
+        return json.loads(b''.join(chunks).decode())
+    except ValueError:
+        seed = rngmod.run_seed(args[0], args[1], args[3])
+        return {'violations': [], 'index': args[3], 'seed': seed,
+                'harness_error': 'run child died or hung without a result'}
+
+
+def _task_inner(args):
     pid, verif_seed, tier, index = args
     prop = load_prop(pid)
     seed = rngmod.run_seed(pid, verif_seed, index)
@@ -112,6 +170,12 @@ def class_main(pid, verif_seed, tier, indices, workers, out):
     """Child interpreter entry: execute the given run indices, write JSONL."""
     os.environ.setdefault('OMP_NUM_THREADS', '1')
     prop = load_prop(pid)
+    # warm-up: import the SUT once here so that the pool workers and the
+    # per-run children forked from them inherit the loaded (but never
+    # exercised) modules instead of importing them again in every run
+    import aurel                                    # noqa: F401
+    import aurel.reading, aurel.time, aurel.coresymbolic  # noqa: F401,E401
+    import h5py                                     # noqa: F401
     if hasattr(prop, 'warmup'):
         prop.warmup()
     tasks = [(pid, verif_seed, tier, i) for i in indices]
